@@ -154,6 +154,20 @@ impl Routine for Residency {
         Ok(o)
     }
 
+    fn follow_up(h: &ResHist, dir: &Path) -> Option<Result<Obs, String>> {
+        // later session: load, delete every key of the universe but the first (the file gets shorter), save, observe
+        Some((|| {
+            let mut db = ResidencyDb::load(&dir.join(DB)).map_err(|e| format!("follow-up load: {e}"))?;
+            let u = universe(h);
+            if u.len() > 1 {
+                db.delete_keys(&u[1..]);
+            }
+            db.save().map_err(|e| format!("follow-up save: {e}"))?;
+            drop(db);
+            Self::observe(h, dir)
+        })())
+    }
+
     fn site_class(snap: &Snapshot, _before: &Files) -> String {
         crate::generic_site_class(snap)
     }
